@@ -617,4 +617,35 @@ def programsR (G : TT S T) (fuel : Nat) : Option Nat :=
 
 end ProgramsR
 
+/-! ## product of two grammar objects (ttcfg.py:98-141 as it is now: `clean()` with the test for a
+     missing start symbol, `grammar.type_request = self.type_request`, 26a6c4e) -/
+section MulG
+variable {S T U V : Type} [DecidableEq S] [DecidableEq T] [DecidableEq U] [DecidableEq V]
+
+/-- `g1 * g2` (the assertion `self.type_request == other.type_request` is a precondition) -/
+def mulTTG (g1 : TTG S T) (g2 : TTG U V) (fuel : Nat) : Res (TTG (S × U) (T × V)) :=
+  match cleanFixed (mulRaw g1.G g2.G) fuel with
+  | .ok G => .ok ⟨G, g1.typeRequest⟩
+  | .fuel => .fuel
+  | .keyError => .keyError
+
+end MulG
+
+/-! ## a decidable sufficient condition for `at_most_k` to return (checked certificate) -/
+
+/-- all `(arguments taken, slot type)` with `t.endsWith slot = some arguments` -/
+def suffixesRec : Ty → List Ty → List (List Ty × Ty)
+  | .arrow a b, acc => (acc, .arrow a b) :: suffixesRec b (acc ++ [a])
+  | t, acc => [(acc, t)]
+
+def suffixes (t : Ty) : List (List Ty × Ty) := suffixesRec t []
+
+def tyRank (rkT : AList Ty Nat) (t : Ty) : Nat := (AList.lookup t rkT).getD 0
+
+/-- the certificate checker -/
+def uncountedRanked (dsl : Dsl) (name : String) (rkT : AList Ty Nat) : Bool :=
+  dsl.prims.all (fun p => decide (symStr p = name) ||
+    (suffixes p.ty).all (fun s => s.1.all (fun a => decide (tyRank rkT a < tyRank rkT s.2))))
+
+
 end PS.T
